@@ -1,8 +1,11 @@
 --------------------------------- MODULE Sim ---------------------------------
 (* Behaviour generator: `tlc -simulate` on this module prints one JSON behaviour
    per line ("BEH {...}") when a run reaches Depth steps.  The initial state fixes the
-   binding level (machine / reactor); the disjuncts below are one successor per call
-   kind, with aimed variants for the calls that only matter with the right argument. *)
+   binding level (machine / reactor / follower; at the follower level also the durable
+   state before the load and whether a quorum log is configured); the disjuncts below are
+   one successor per call kind, with aimed variants for the calls that only matter with
+   the right argument (a fence change while a checkpoint or an apply is in flight, a leader
+   switch or an older fence while the store load is in flight, ...). *)
 EXTENDS ChannelMachine, Json, TLC
 CONSTANTS Depth, Salt
 VARIABLE hist
